@@ -467,7 +467,7 @@ func runAgg(prop string, res *Result, pool *DrvPool, r *Rng) {
 					}
 				}
 			case "C13":
-				checkBucketOrder(a.Buckets, bad)
+				checkBucketOrder(a.Buckets, byID, bad)
 			case "C06":
 				for k := 0; k < 8; k++ {
 					a2 := snapshotOf(c.gs).Aggregate(lvl)
@@ -567,38 +567,50 @@ func catch(f func()) (p interface{}) {
 
 // ---- C13 ----
 
-func allStdlib(b *stack.Bucket) bool {
-	if len(b.Stack.Calls) == 0 {
+// The ordering contract speaks of the frames of the goroutines in a bucket: the predicates are
+// evaluated on a MEMBER of the bucket as the snapshot has it (all members have the same frames),
+// not on the signature the aggregation built for the bucket.
+func memberCalls(b *stack.Bucket, byID map[int]*MG) []MCall {
+	if len(b.IDs) > 0 {
+		if g := byID[b.IDs[0]]; g != nil {
+			return g.Sig.Stack.Calls
+		}
+	}
+	return mSig(&b.Signature).Stack.Calls
+}
+
+func allStdlibCalls(cs []MCall) bool {
+	if len(cs) == 0 {
 		return false
 	}
-	for _, c := range b.Stack.Calls {
-		if c.Location != stack.Stdlib || c.Func.IsPkgMain {
+	for _, c := range cs {
+		if c.Loc != int(stack.Stdlib) || c.Fn.Main {
 			return false
 		}
 	}
 	return true
 }
 
-func hasUserCode(b *stack.Bucket) bool {
-	for _, c := range b.Stack.Calls {
-		if c.Func.IsPkgMain || c.Location == stack.GoMod || c.Location == stack.GOPATH || c.Location == stack.GoPkg {
+func hasUserCodeCalls(cs []MCall) bool {
+	for _, c := range cs {
+		if c.Fn.Main || c.Loc == int(stack.GoMod) || c.Loc == int(stack.GOPATH) || c.Loc == int(stack.GoPkg) {
 			return true
 		}
 	}
 	return false
 }
 
-func countMain(b *stack.Bucket) int {
+func countMainCalls(cs []MCall) int {
 	n := 0
-	for _, c := range b.Stack.Calls {
-		if c.Func.IsPkgMain {
+	for _, c := range cs {
+		if c.Fn.Main {
 			n++
 		}
 	}
 	return n
 }
 
-func checkBucketOrder(bs []*stack.Bucket, bad func(string)) {
+func checkBucketOrder(bs []*stack.Bucket, byID map[int]*MG, bad func(string)) {
 	for i, b := range bs {
 		if b.First && i != 0 {
 			bad("the bucket with the crashing goroutine is not first")
@@ -609,11 +621,12 @@ func checkBucketOrder(bs []*stack.Bucket, bad func(string)) {
 			if bs[i].First || bs[j].First {
 				continue
 			}
-			if allStdlib(bs[i]) && hasUserCode(bs[j]) {
+			ci, cj := memberCalls(bs[i], byID), memberCalls(bs[j], byID)
+			if allStdlibCalls(ci) && hasUserCodeCalls(cj) {
 				bad(fmt.Sprintf("all-stdlib bucket %v sorted before bucket %v with main/module/GOPATH code", bs[i].IDs, bs[j].IDs))
 			}
-			if countMain(bs[i]) < countMain(bs[j]) {
-				bad(fmt.Sprintf("bucket %v (%d main frames) sorted before bucket %v (%d main frames)", bs[i].IDs, countMain(bs[i]), bs[j].IDs, countMain(bs[j])))
+			if countMainCalls(ci) < countMainCalls(cj) {
+				bad(fmt.Sprintf("bucket %v (%d main frames) sorted before bucket %v (%d main frames)", bs[i].IDs, countMainCalls(ci), bs[j].IDs, countMainCalls(cj)))
 			}
 			if stack.VerifLess(&bs[j].Signature, &bs[i].Signature) {
 				bad(fmt.Sprintf("bucket %v sorted before %v although the comparator puts it after", bs[i].IDs, bs[j].IDs))
@@ -624,7 +637,63 @@ func checkBucketOrder(bs []*stack.Bucket, bad func(string)) {
 
 // runSigLaws checks algebraic laws on pairs/triples from a universe, on the
 // implementation, and the correspondence of similar/equal/merge/less.
+// runFrameCountBoundaries (C13): the ranking counts frames per kind, most relevant kind first; the
+// runtime prints up to 100 frames.  For every pair of kinds (k more relevant than k'), a stack of n
+// frames of kind k' (n up to and beyond 100) never outranks a stack with a single frame of kind k,
+// whatever the function names are; and the same through Aggregate's bucket order.
+func runFrameCountBoundaries(res *Result) {
+	kinds := []frameKind{
+		{"main", "zzmain", "/home/u/app/main.go", 10, 0},                                 // package main
+		{"example.com/m", "Zrun", "/work/m/run.go", 5, 1},                                // GoMod
+		{"github.com/foo/bar", "Zdo", "/gp/src/github.com/foo/bar/do.go", 33, 2},          // GOPATH
+		{"gopkg.in/yaml.v2", "Zunmarshal", "/gp/pkg/mod/gopkg.in/yaml.v2@v2.4.0/y.go", 7, 3}, // GoPkg
+		{"aaa/net/http", "aserve", "/goroot/src/net/http/server.go", 1900, 4},            // Stdlib (names sort first)
+	}
+	mk := func(k frameKind, n int) MSig {
+		s := MSig{State: hb("running")}
+		s.Created.Calls = []MCall{}
+		for i := 0; i < n; i++ {
+			s.Stack.Calls = append(s.Stack.Calls, mkCall(k, nil, false))
+		}
+		s.Stack.Elided = n >= 100
+		return s
+	}
+	for hi := 0; hi < len(kinds); hi++ {
+		for lo := hi + 1; lo < len(kinds); lo++ {
+			for _, n := range []int{1, 2, 9, 10, 11, 99, 100, 101, 128, 255, 256} {
+				a, b := mk(kinds[hi], 1), mk(kinds[lo], n)
+				sa, sb := sSig(&a), sSig(&b)
+				var ab, ba bool
+				if p := catch(func() { ab, ba = stack.VerifLess(&sa, &sb), stack.VerifLess(&sb, &sa) }); p != nil {
+					res.Violation(Finding{Stream: "frame-counts", What: fmt.Sprintf("less panicked: %v", p), Op: map[string]interface{}{"a": a, "b": b}})
+					return
+				}
+				res.Count("frame-count-boundaries")
+				if !ab || ba {
+					res.Violation(Finding{Stream: "frame-counts", What: fmt.Sprintf("a stack with one frame of kind %d (0 main, 1 module, 2 GOPATH, 3 module cache, 4 stdlib) must rank before a stack of %d frames of the less relevant kind %d: less(a,b)=%v less(b,a)=%v", hi, n, lo, ab, ba), Op: map[string]interface{}{"op": "sig", "a": a, "b": b, "lvl": 0}})
+					return
+				}
+				// and through Aggregate: [first goroutine, b, a] must come out as [first, a, b]
+				first := mk(frameKind{"main", "main", "/home/u/app/main.go", 1, 0}, 1)
+				first.State = hb("panicwait")
+				gs := []MG{{Sig: first, ID: 1, First: true}, {Sig: b, ID: 2}, {Sig: a, ID: 3}}
+				var bs []*stack.Bucket
+				if p := catch(func() { bs = snapshotOf(gs).Aggregate(stack.AnyPointer).Buckets }); p != nil || len(bs) != 3 {
+					continue
+				}
+				if !(bs[0].First && len(bs[1].IDs) == 1 && bs[1].IDs[0] == 3 && bs[2].IDs[0] == 2) {
+					res.Violation(Finding{Stream: "frame-counts", What: fmt.Sprintf("bucket order %v %v %v: the bucket whose only frame is of kind %d must come before the bucket of %d frames of kind %d", bs[0].IDs, bs[1].IDs, bs[2].IDs, hi, n, lo), Op: map[string]interface{}{"op": "agg", "gs": gs, "lvl": 2, "oracle": 0}})
+					return
+				}
+			}
+		}
+	}
+}
+
 func runSigLaws(prop string, res *Result, pool *DrvPool, r *Rng) {
+	if prop == "C13" {
+		runFrameCountBoundaries(res)
+	}
 	nu := 40
 	if res.Tier == "thorough" {
 		nu = 110
